@@ -209,6 +209,7 @@ static long failalloc_in = -1; /* countdown: this many further daemon allocation
 static long failalloc_count = 1;
 static unsigned long alloc_counter;
 static unsigned long alloc_failed;
+static int alloc_fail_fd = -1;
 static size_t heap_peak;
 static unsigned long cap_violations;
 static int cur_read_fd = -1;
@@ -532,6 +533,7 @@ int __wrap_accept(int fd, struct sockaddr *addr, socklen_t *len)
 	f->npending--;
 	struct simfd *c = &fds[cfd];
 	c->state = S_OPEN;
+	cur_read_fd = cfd; /* set-up of this connection is "its" processing */
 	trace_ev("[\"a\",%d,%d]", cfd, fd);
 	if (addr && len) {
 		socklen_t l = c->peerlen;
@@ -586,6 +588,7 @@ ssize_t __wrap_read(int fd, void *buf, size_t count)
 		uint64_t v = f->expirations;
 		memcpy(buf, &v, 8);
 		f->expirations = 0;
+		cur_read_fd = fd;
 		trace_ev("[\"x\",%d]", fd);
 		return 8;
 	}
@@ -813,8 +816,7 @@ int __wrap_epoll_ctl(int epfd, int op, int fd, struct epoll_event *event)
 		return 0;
 	case EPOLL_CTL_DEL:
 		if (!f->registered) {
-			hygiene("epoll_ctl", fd, "EPOLL_CTL_DEL of a descriptor that is not registered");
-			errno = ENOENT;
+			errno = ENOENT; /* legal (own, open descriptor): e.g. teardown after a failed EPOLL_CTL_ADD */
 			return -1;
 		}
 		f->registered = 0;
@@ -954,6 +956,7 @@ static int alloc_should_fail(void)
 			if (failalloc_count > 0) {
 				failalloc_count--;
 				alloc_failed++;
+				alloc_fail_fd = cur_read_fd;
 				if (failalloc_count == 0) failalloc_in = -1;
 				return 1;
 			}
@@ -1073,8 +1076,8 @@ static void put_stat(void)
 			if (f->registered) regs++;
 		}
 	}
-	ds_printf(&out, "\"heap\":%zu,\"heap_peak\":%zu,\"cap_violations\":%lu,\"peers\":%d,\"fds\":{\"listener\":%d,\"stream\":%d,\"epoll\":%d,\"timer\":%d},\"regs\":%d,\"allocs\":%lu,\"alloc_failed\":%lu,\"now\":%llu,\"n_hygiene\":%lu,\"real_fds\":%d,",
-	          cjet_get_alloc_size(), heap_peak, cap_violations, get_number_of_peers(), cnt[K_LISTENER], cnt[K_STREAM], cnt[K_EPOLL], cnt[K_TIMER], regs, alloc_counter, alloc_failed,
+	ds_printf(&out, "\"heap\":%zu,\"heap_peak\":%zu,\"cap_violations\":%lu,\"peers\":%d,\"fds\":{\"listener\":%d,\"stream\":%d,\"epoll\":%d,\"timer\":%d},\"regs\":%d,\"allocs\":%lu,\"alloc_failed\":%lu,\"alloc_fail_fd\":%d,\"now\":%llu,\"n_hygiene\":%lu,\"real_fds\":%d,",
+	          cjet_get_alloc_size(), heap_peak, cap_violations, get_number_of_peers(), cnt[K_LISTENER], cnt[K_STREAM], cnt[K_EPOLL], cnt[K_TIMER], regs, alloc_counter, alloc_failed, alloc_fail_fd,
 	          (unsigned long long)now_ns, n_hyg, n_real_fds);
 	ds_put(&out, "\"timers\":[");
 	int first = 1;
